@@ -48,6 +48,8 @@ class SpecEval:
         self.old_st = old_st
         self.old_env = old_env if old_env is not None else env
         self.engine = engine
+        self.pre_st = None       # state at loop entry, for pre(...)
+        self.pre_env = None
 
     def in_old(self):
         if self.old_st is None:
@@ -223,8 +225,8 @@ class SpecEval:
             lo = self.ev(sl.lower).t if sl.lower else None
             hi = self.ev(sl.upper).t if sl.upper else None
             return V(s.ty, ops.slice_seq(s.t, lo, hi))
+        # contract language: indices are mathematical (no negative wrap-around)
         i = self.ev(sl).t
-        i = ops.norm_index(z3.Length(s.t), i)
         return V(s.ty.args[0], s.t[i])
 
     def ev_Call(self, n):
@@ -236,6 +238,16 @@ class SpecEval:
                 if self._container(v):
                     v2 = V(v.ty, v.t, v.items, v.isnone, v.val, v.py)
                     v2._st = o.st          # read its content in the pre-state
+                    return v2
+                return v
+            if name == "pre":
+                if self.pre_st is None:
+                    raise Unsupported("pre() used outside a loop invariant")
+                o = SpecEval(self.pre_st, self.pre_env, self.old_st, self.old_env, self.engine)
+                v = o.ev(n.args[0])
+                if self._container(v):
+                    v2 = V(v.ty, v.t, v.items, v.isnone, v.val, v.py)
+                    v2._st = o.st
                     return v2
                 return v
             if name in ("forall", "exists"):
@@ -292,6 +304,8 @@ class SpecEval:
         for nm, t, v in zip(names, tys, vars_):
             env2[nm] = V(t, v)
         inner = SpecEval(self.st, env2, self.old_st, dict(self.old_env, **{nm: env2[nm] for nm in names}), self.engine)
+        inner.pre_st = self.pre_st
+        inner.pre_env = dict(self.pre_env, **{nm: env2[nm] for nm in names}) if self.pre_env is not None else None
         body = ops.truthy(self.st, inner.ev(lam.body))
         guards = []
         if len(n.args) >= 3:
@@ -403,7 +417,8 @@ def _ite(se, a, kw):
 
 @specfun("same")
 def _same(se, a, kw):
-    if not (a[0].ty.is_ref or a[0].ty.kind == "none") or not (a[1].ty.is_ref or a[1].ty.kind == "none"):
+    okk = lambda v: v.ty.is_ref or v.ty.kind in ("none", "int")
+    if not okk(a[0]) or not okk(a[1]):
         raise Unsupported("same() needs references")
     x = z3.IntVal(0) if a[0].ty.kind == "none" else a[0].t
     y = z3.IntVal(0) if a[1].ty.kind == "none" else a[1].t
@@ -437,8 +452,9 @@ def _allocated(se, a, kw):
     if s.t is None:
         return vbool(True)
     i = z3.Int("i!alloc")
+    lo = 1 if s.ty.args[0].kind == "obj" else 0      # elements of a list of objects are not None
     return vbool(z3.ForAll([i], z3.Implies(z3.And(0 <= i, i < z3.Length(s.t)),
-                                           z3.And(s.t[i] >= 0, s.t[i] < se.st.alloc))))
+                                           z3.And(s.t[i] >= lo, s.t[i] < se.st.alloc))))
 
 
 @specfun("distinct_elems")
